@@ -315,3 +315,70 @@ def h_keytype(kind: int, side: bool) -> bool:
         return fail('C18:non-bytes-key-not-rejected')
     finally:
         bc.SocketClient, bc.SocketListener, bc.address_type = saved
+
+
+# ---------------------------------------------------------------------------
+# "if and only if both hold the same key", the client's side, against a peer WITHOUT the key while the client has two handshakes
+# to that peer under way (two Client() calls from two threads): what the peer says at each step is chosen by the solver from what
+# it can know - arbitrary bytes, or bytes it has seen on the other connection.  Client = answer_challenge, then deliver_challenge.
+
+def _relay(code, want):
+    nd = NDCode(code)
+    key = _key(nd.draw(0, 1) * 3)                   # b'j' or b'jk'
+    c1, c2 = b'\x11' * 20, b'\x22' * 20             # the client's fresh challenges on the two connections
+    junk = b'\x33' * 20
+    m2_sel = nd.draw(0, 1)      # the peer's challenge on connection 2: junk / the challenge the client sent on connection 1
+    r1_sel = nd.draw(0, 2)      # the peer's answer on connection 1: junk / what the client answered on connection 2 / nothing (EOF)
+    real, calls = _install([c1, c2, c1])
+    try:
+        # connection 1: the peer challenges (anything), accepts whatever comes back, then receives the client's challenge
+        a1 = Chan([bc.CHALLENGE + junk, bc.WELCOME])
+        r, _ = _run(bc.answer_challenge, a1, key)
+        if r != 'ok':
+            raise Prune()
+        d1 = Chan([])
+        r, _ = _run(bc.deliver_challenge, d1, key)         # sends CHALLENGE + c1, then waits for the peer's answer
+        if r != 'suspend' or d1.sent != [bc.CHALLENGE + c1]:
+            raise Prune()
+        # connection 2, meanwhile
+        m2 = bc.CHALLENGE + (junk if m2_sel == 0 else c1)
+        a2 = Chan([m2])
+        r, _ = _run(bc.answer_challenge, a2, key)          # the client answers the peer's challenge, then waits for the verdict
+        if r != 'suspend' or len(a2.sent) != 1:
+            raise Prune()
+        seen_on_2 = a2.sent[0]
+        # back on connection 1: the peer answers the client's challenge
+        resp = (junk, seen_on_2, None)[r1_sel]
+        d1b = Chan([resp])
+        calls[:] = [1, 1]                                  # the same handshake continues: its challenge is c1 (third entry)
+        r, _ = _run(bc.deliver_challenge, d1b, key)
+        if want:
+            return not (r == 'auth')
+        if r == 'ok':
+            # Client() on connection 1 returns a connection although the peer never held the key
+            return fail('C18:peer-without-the-key-authenticated:relay-between-two-concurrent-handshakes-of-the-client')
+        return True
+    finally:
+        _restore(real)
+
+
+def h_relay(code: int) -> bool:
+    """
+    pre: 0 <= code < CODEMAX
+    post: _
+    """
+    try:
+        return _relay(code, False)
+    except Prune:
+        return True
+
+
+def h_relay_twin(code: int) -> bool:
+    """
+    pre: 0 <= code < CODEMAX
+    post: _
+    """
+    try:
+        return _relay(code, True)
+    except Prune:
+        return True
